@@ -158,7 +158,15 @@ pub fn mutate(rng: &mut Rng, w: &[Vec<u8>], pool: &[Vec<u8>]) -> Vec<Vec<u8>> {
             continue;
         }
         let i = rng.below(w.len());
-        match rng.below(7) {
+        match rng.below(9) {
+            7 => {
+                // one more byte at the end of an element (a hash type byte on a signature, among others)
+                let b = *rng.pick(&[0x00u8, 0x01, 0x02, 0x03, 0x81, 0x83]);
+                w[i].push(b);
+            }
+            8 => {
+                w[i].pop();
+            }
             0 => {
                 w.remove(i);
             }
